@@ -1402,3 +1402,11 @@ Lemma mount_fallback_once authc warm0 p cn data sc :
   | None => True
   end.
 Proof. apply blob_push_not_replayable. apply oneshot_not_replayable. reflexivity. Qed.
+
+(* the status constants the model reads from the sources *)
+Lemma status_constants :
+  challenge_status = 401 /\ challenge_status_2 = 401 /\ token_ok_status = 200 /\ accepted_status = 202 /\
+  fetch_oauth2_status_cmps = fetch_distribution_status_cmps /\
+  blob_put_status_cmps = [(1, 201)] /\ manifest_push_status_cmps = [(1, 201)] /\
+  blob_mount_status_cmps = [(0, 201); (1, 202)].
+Proof. repeat split; reflexivity. Qed.
